@@ -63,9 +63,9 @@ FinalOK(inst, sol, fin) == TRUE
 Init0(inst) == [visited |-> {}, cur |-> 0, prize |-> 0, pen |-> SumSeq(inst.pen),
                 i |-> 0, done |-> FALSE]
 
-\* QUIRK get_action_mask: `td["cur_total_prize"] < 1.0` -- the requirement is the literal
-\* 1.0 (= inst.unit); td["prize_required"] / generator.prize_required is never read
-HardCodedRequirement(inst) == inst.unit
+\* get_action_mask: `td["cur_total_prize"] < td["prize_required"]` (since the fix "PCTSP honours the configured
+\* prize requirement"; before, the literal 1.0 (= inst.unit) was used and generator.prize_required never read)
+HardCodedRequirement(inst) == inst.req
 
 NumSeen(s) == Cardinality(s.visited \ {0})
 
